@@ -14,7 +14,7 @@
    Statements only. *)
 From Coq Require Import String.
 From Coq Require Import ZArith QArith List Bool Arith Permutation.
-From BS Require Import Core.Base Model.Aod Proofs.AodProofs Proofs.AodRoundTrip.
+From BS Require Import Core.Base Model.Aod Proofs.AodProofs Proofs.AodRoundTrip Proofs.AodSelect.
 Import ListNotations.
 
 Theorem C08_no_atom_lost_or_duplicated : forall st ps st',
@@ -100,6 +100,41 @@ Theorem C08_recognised_transport_is_executable_and_delivers : forall T O ps nx n
        occ_find p (occ st') = if has_pos p (spots_of (canon nx (fst w0)) (canon ny (snd w0))) then None else occ_find p O).
 Proof. exact recognised_transport_executable. Qed.
 
+(* the same transport with only the tones of two index lists lit (gemini.logical.move_by_shift, used by vertical_shift):
+   lx / ly are the index lists written in the path, in range and without repetition *)
+Theorem C08_selected_transport_is_executable_and_delivers :
+  forall nx ny (T : list pos) (O : list (pos * nat)) lx ly (w0 : list Q * list Q) (ws : list (list Q * list Q)),
+  let ix := map Z.to_nat lx in let iy := map Z.to_nat ly in
+  let wn := last (w0 :: ws) w0 in
+  let Lsrc := spots_of (sel_tones ix (fst w0)) (sel_tones iy (snd w0)) in
+  in_range nx lx = true -> in_range ny ly = true -> NoDup ix -> NoDup iy ->
+  wp_sel_ok nx ny ix iy w0 -> Forall (wp_sel_ok nx ny ix iy) ws ->
+  (forall i j, In i ix -> In j iy -> existsb (pos_eqb (nth i (fst w0) 0%Q, nth j (snd w0) 0%Q)) T = true) ->
+  (forall i j, In i ix -> In j iy -> existsb (pos_eqb (nth i (fst wn) 0%Q, nth j (snd wn) 0%Q)) T = true) ->
+  (forall i j, In i ix -> In j iy ->
+     occ_find (nth i (fst wn) 0%Q, nth j (snd wn) 0%Q) O = None \/ has_pos (nth i (fst wn) 0%Q, nth j (snd wn) 0%Q) Lsrc = true) ->
+  occ_wf O = true ->
+  exists st', sim_paths (mkast T O [] [] [])
+                [mkspath nx ny [SWay [w0]; SSwitch On (SList lx) (SList ly); SWay (w0 :: ws); SSwitch Off (SList lx) (SList ly); SWay [wn]]] = AOk st' /\
+    traps st' = T /\ xon st' = [] /\ yon st' = [] /\ held st' = [] /\
+    (forall i j, In i ix -> In j iy ->
+       occ_find (nth i (fst wn) 0%Q, nth j (snd wn) 0%Q) (occ st') = occ_find (nth i (fst w0) 0%Q, nth j (snd w0) 0%Q) O) /\
+    (forall p, has_pos p (spots_of (sel_tones ix (fst wn)) (sel_tones iy (snd wn))) = false ->
+       occ_find p (occ st') = if has_pos p Lsrc then None else occ_find p O).
+Proof. exact transport_sel. Qed.
+
+Theorem C08_recognised_selected_transport_is_executable_and_delivers : forall T O ps nx ny lx ly w0 ws,
+  recognise_transport_sel ps = Some (nx, ny, lx, ly, w0, ws) -> transport_sel_ok T O ps = true ->
+  let ix := map Z.to_nat lx in let iy := map Z.to_nat ly in
+  let wn := last (w0 :: ws) w0 in
+  exists st', sim_paths (mkast T O [] [] []) ps = AOk st' /\
+    traps st' = T /\ xon st' = [] /\ yon st' = [] /\ held st' = [] /\
+    (forall i j, In i ix -> In j iy ->
+       occ_find (nth i (fst wn) 0%Q, nth j (snd wn) 0%Q) (occ st') = occ_find (nth i (fst w0) 0%Q, nth j (snd w0) 0%Q) O) /\
+    (forall p, has_pos p (spots_of (sel_tones ix (fst wn)) (sel_tones iy (snd wn))) = false ->
+       occ_find p (occ st') = if has_pos p (spots_of (sel_tones ix (fst w0)) (sel_tones iy (snd w0))) then None else occ_find p O).
+Proof. exact recognised_transport_sel_executable. Qed.
+
 (* a CZ-move shaped program on a 2x1 selection: out along an L-shaped path, back along its reversal *)
 Example C08_example :
   let ALL := SSlice None None None in
@@ -123,3 +158,5 @@ Print Assumptions C08_round_trip_is_executable_and_returns_every_atom.
 Print Assumptions C08_recognised_call_is_executable_and_returns_every_atom.
 Print Assumptions C08_transport_is_executable_and_delivers.
 Print Assumptions C08_recognised_transport_is_executable_and_delivers.
+Print Assumptions C08_selected_transport_is_executable_and_delivers.
+Print Assumptions C08_recognised_selected_transport_is_executable_and_delivers.
